@@ -580,8 +580,8 @@ impl<'a> Run<'a> {
             return;
         }
         if p.ends_with("ro.ran") {
-            // the tool ran without the lock
-            if !k.spec_readonly() {
+            // the tool ran without the lock (a name nobody registered changes nothing: either way is fine)
+            if k.spec_mutating_tool() {
                 let open = open_sections(&read_markers(&self.side));
                 if self.span_owner.is_some() || !open.is_empty() {
                     self.viol("overlap", format!("mutating tool {} of actor {i} ran without the workspace lock while actor {:?} held it", k.tool_name(), self.span_owner.or(open.first().copied())));
@@ -870,6 +870,10 @@ impl<'a> Run<'a> {
                 if arrived.len() > 1 {
                     self.viol("overlap", format!("actors {arrived:?} all acquired the workspace lock after one release"));
                 }
+                return;
+            }
+            // after an intrusion the bookkeeping no longer knows who really holds the permit
+            if self.obs.intrusions > 0 && t0.elapsed() > self.settle {
                 return;
             }
             if t0.elapsed() > LONG {
